@@ -264,7 +264,10 @@ func runTranslate(c *vk.Ctx) {
 						reportf(class, i, via, first, "want %#x (or an error only if the owning segment is not unique), got %v", las[i], r)
 					}
 					// (c0) an object first asked about an address just outside its mapping (the limit itself,
-					// one below the start) answers every address inside exactly as a fresh object does
+					// one below the start) never answers an address inside with a value other than the one a
+					// fresh object gives. pprof computes the base once, from the first address, and keeps the
+					// error if that address was out of range: a kept error is what the statement prefers to a
+					// wrong address, so it is tolerated (and counted), like the kept error of (c)
 					for _, out := range []uint64{m.Limit, m.Start - 1} {
 						o0, ok0 := open(true, m)
 						r0 := objAddr(o0, ok0, out)
@@ -274,6 +277,12 @@ func runTranslate(c *vk.Ctx) {
 							want := objAddr(fo, fok, las[j]+bias)
 							got := objAddr(o0, ok0, las[j]+bias)
 							c.Eval()
+							if got.err && r0.err {
+								if !want.err {
+									c.Count("sequence/error-kept-after-first-address-outside-the-mapping(tolerated)", 1)
+								}
+								continue
+							}
 							if got != want {
 								reportf("sequence/answer-changed-by-earlier-address-outside-the-mapping", j, "binutils openELF+ObjAddr after ObjAddr of an address outside the mapping", -1,
 									"first asked about %#x (outside [%#x,%#x), answer %v); then %#x: fresh object says %v, this object %v", out, m.Start, m.Limit, r0, las[j]+bias, want, got)
